@@ -403,8 +403,9 @@ func execCase(c Case) (res vt.Result) {
 				processed := exists && !unreachable(p.Id) && !inRejected(p.Id)
 				msg, isFailed := failedSet[p.Id]
 				if exists && !unreachable(p.Id) && !inRejected(p.Id) && collateral(p.Id) {
-					processed = !isFailed
-					ambiguous++
+					// another shard of the same server rejected its part of the batch in this very request. An
+					// error answer must not disturb the other calls travelling on the same connection (it once
+					// did: D17, repaired), so nothing is relaxed here; the class is only counted
 					rec.Count("ids_on_a_server_whose_connection_carried_an_error", 1)
 				}
 				if processed == isFailed {
